@@ -326,18 +326,21 @@ static void case_function(Rng& rng, uint64_t index)
 // the reciprocal: the quotient may sit on the other side of a rounding boundary) - any d-digit number within half a unit of the d-th digit of it
 static bool rounded_ok(double got, double q, int digits)
 {
-	if(near_ulps(got, Round(q, (unsigned) digits), 4))
-		return true;
-	if(q == 0 || !std::isfinite(q) || !std::isfinite(got))
-		return false;
-	if(!near_ulps(Round(got, (unsigned) digits), got, 4))
+	// independent of the library's own Round(): the result is within half a unit of the last requested digit of q, and has no more than the requested digits
+	if(q == 0)
+		return got == 0;
+	if(!std::isfinite(q) || !std::isfinite(got))
 		return false;
 	int e = (int) std::floor(std::log10(std::fabs(q)));
 	for(int de = -1; de <= 1; de++)
 	{
-		double unit_d = std::pow(10.0, e + de - digits + 1);
-		if(std::fabs(got - q) <= 0.5 * unit_d * (1 + 1e-9) && std::fabs(q) >= std::pow(10.0, e + de) * (1 - 1e-9) && std::fabs(q) < std::pow(10.0, e + de + 1) * (1 + 1e-9))
-			return true;
+		long double unit_d = powl(10.0L, e + de - digits + 1);
+		if(fabsl((long double) got - (long double) q) <= 0.5L * unit_d * (1 + 1e-9L) && std::fabs(q) >= std::pow(10.0, e + de) * (1 - 1e-9) && std::fabs(q) < std::pow(10.0, e + de + 1) * (1 + 1e-9))
+		{
+			long double m = (long double) got / unit_d;	  // an integer of at most digits+1 figures, to rounding
+			if(fabsl(m - roundl(m)) <= 1e-6L)
+				return true;
+		}
 	}
 	return false;
 }
@@ -355,7 +358,7 @@ static void case_in_units(Rng& rng, uint64_t index)
 		d = (index % 6 == 5 && rng.coin()) ? 1.0 : rng.loguni(1e-30, 1e30);
 	for(int i = 0; i < rows; i++)
 		for(int j = 0; j < cols; j++)
-			q[i][j] = rng.mag(1e-100, 1e100), t[i][j] = q[i][j] * unit;
+			q[i][j] = rng.coin(0.2) ? rng.mag(1e-268, 1e268) : rng.mag(1e-100, 1e100), t[i][j] = q[i][j] * unit;
 	int digits = rng.irange(1, 7);
 	set_params(J().d("unit", unit).i("rows", rows).i("columns", cols).i("digits", digits).vec("first_row", q[0]));
 	hash_param(unit), hash_param(q[0][0]), hash_param_u(rows * 10 + cols);
